@@ -21,7 +21,7 @@ ASSUMPTIONS = [
 ]
 OUTSIDE = ["histories longer than the bound", "Screen.combine / ScreenSubset.to_screen (documented as renumbering, used before the split only)"]
 RULE = "hold-out choices, operation codes and revealed plates are solver-enumerated."
-BUDGET_S = {"quick": 240, "thorough": 1500}
+BUDGET_S = {"quick": 600, "thorough": 3000}
 TASK_QUOTA = 60
 
 # two doses of one treatment that agree to six decimals (1.0 and 1.0000003: distinct conditions, distinct ids);
